@@ -129,7 +129,14 @@ def run_fn(task):
     fn = getattr(mod, task['fn'])
     q0, s0 = _STATS['queries'], _STATS['solver_s']
     t0 = time.time()
-    out = fn(**task.get('kwargs', {}))
+    try:
+        out = fn(**task.get('kwargs', {}))
+    except (AttributeError, KeyError, NotImplementedError) as exc:
+        if task['kind'] != 'lemma':
+            raise
+        # a lemma is generated from named objects of the live tree; when they are gone the lemma is skipped (structure changed),
+        # the public-API harnesses of the same property still run
+        out = {'state': 'skipped', 'why': f'structure changed: {type(exc).__name__}: {exc}'}
     res = {'id': task['id'], 'kind': task['kind'], 'wall_s': round(time.time() - t0, 3),
            'queries': _STATS['queries'] - q0, 'solver_s': round(_STATS['solver_s'] - s0, 3)}
     res.update(out)
